@@ -1648,11 +1648,16 @@ impl AsExpandedName for XmlAttr {
                 .prefix()
                 .unwrap_or("xmlns")
                 .to_string();
-            let namespaces = XmlElement::from(element).in_scope_namespace()?;
-            if let Some(ns) = namespaces.iter().find(|v| v.node_name() == prefix) {
-                (Some(prefix), ns.node_value()?)
-            } else {
+            if self.attribute.borrow().prefix().is_none() {
+                // The default namespace does not apply to attributes.
                 (Some(prefix), None)
+            } else {
+                let namespaces = XmlElement::from(element).in_scope_namespace()?;
+                if let Some(ns) = namespaces.iter().find(|v| v.node_name() == prefix) {
+                    (Some(prefix), ns.node_value()?)
+                } else {
+                    (Some(prefix), None)
+                }
             }
         } else {
             (None, None)
